@@ -801,7 +801,8 @@ def run(ctx):
         count("U_bad_rejected" if "reject" in o else "U_bad_accepted")
     for (m, t), o in zip(U_abs, oUabs):
         if "reject" not in o and o["skip"] != documented_exempt(m, unhx(o["to_string"])):
-            fail({"leg": "U", "method": m, "target": t}, "absolute-form target exempted", o)
+            fail({"leg": "U", "method": m, "target": t, "driver_line": "U %s %s" % (hx(m), hx(t))},
+                 "should_skip_sig = %s for an absolute-form target but the documented exemption list says %s" % (o["skip"], not o["skip"]), o)
         count("U_absolute_form")
 
     ctx.log("U leg compared")
@@ -941,18 +942,21 @@ def run(ctx):
                      {"authorization": auth, "expected": want, "headers": hdrs})
         elif auth:
             fail(case, "authorization header without a key", {"authorization": auth})
-        # correspondence with the model: base headers + caller's headers (in the order observed)
-        user = rest[4:]
+        # correspondence with the model: the four headers build_request sets + the caller's headers (in the order
+        # observed).  The ORDER of the header list is not observable by the property (the canonical string sorts),
+        # so the lists are compared as multisets
+        base_names = (cstr["date_header"].encode(), b"host", cstr.get("claims_header", "x-ms-azure-host-claims").encode(), b"content-length")
+        user = [(n, v) for n, v in rest if n not in base_names]
         if sorted((n.lower(), v) for n, v in hs.items()) != sorted(user):
             disagree(dict(case, what="caller's headers in the built request"), sorted((n.lower(), v) for n, v in hs.items()), sorted(user))
             continue
-        now = dict(rest[:1]).get(cstr["date_header"].encode(), b"")
+        now = dict(rest).get(cstr["date_header"].encode(), b"")
         calls.append("c04_own_case %s %s %s %s %s %s %s" % (cb(now), cb(m), cb(host), cb(path), cob(query), cpairs(user), cob(body)))
         live.append((case, rest, auth, key, guid, signing))
     count("B_cases", len(live))
     for (case, rest, auth, key, guid, signing), res in zip(live, coq_cases(ctx, "own", calls, per_expr=10)):
-        if tpairs(res[0]) != rest:
-            disagree(dict(case, what="header list assembled by build_request"), tpairs(res[0]), rest)
+        if sorted(tpairs(res[0])) != sorted(rest):
+            disagree(dict(case, what="header multiset assembled by build_request"), sorted(tpairs(res[0])), sorted(rest))
         if signing:
             want = SCHEME + b" " + guid + b" " + hmac_hex(strict_unhex(key), topt(res[1]))
             if auth != [want]:
